@@ -431,6 +431,9 @@ def run(pm, ctx):
             else:
                 ctx.ok("C03-a", site)
 
+        if ci.name == "KernelRIM" and not pen and "KernelRIM" in _EXACT_DEFS:
+            # the penalty is not written as `list[i] += ...`: its closed form is part of the exact comparison of C03-j (direction = -chain rule + 2*reg*K@W)
+            ctx.ok("C03-h", f"{qn}: penalty closed form", "decided by the exact comparison of C03-j")
         # ---- b chain rule
         K = any_concrete(ci)
         if K is None:
@@ -517,6 +520,14 @@ def run(pm, ctx):
         ok_tgt = isinstance(st.target.value, ast.Name) and st.target.value.id == gparam
         neg = any(isinstance(n, ast.UnaryOp) and isinstance(n.op, ast.USub) for n in ast.walk(st.value))
         upd = [n for n in ast.walk(uf) if isinstance(n, ast.Call) and (call_name(n) or "").endswith("update_params")]
+        # ... or the inherited step: super()._update_weights(weights, gradients) when the base method performs the optimiser step with its own arguments
+        for n in ast.walk(uf):
+            if isinstance(n, ast.Call) and isinstance(n.func, ast.Attribute) and n.func.attr == uf.name and isinstance(n.func.value, ast.Call) \
+                    and isinstance(n.func.value.func, ast.Name) and n.func.value.func.id == "super" and [norm_src(a) for a in n.args] == func_params(uf)[1:]:
+                _, bm = pm.resolve_method(rim, uf.name, after=rim)
+                if bm is not None and any(isinstance(c, ast.Call) and (call_name(c) or "").endswith("update_params") for c in ast.walk(bm)):
+                    upd.append(n)
+        upd.sort(key=lambda c: c.lineno)
         before = upd and st.lineno < upd[0].lineno
         from ..match import canon_equal
         if canon_equal(st.value, "2 * self.reg * self.W_"):
